@@ -15,6 +15,7 @@ C13 — the combination formulas behind `FunctionalAssignment.get_func_moment`.
 * `trig_table_pointwise`  : the same with the coefficient table of the model (`Polar.Trig.trigTable`)
 * `cfD_iteratedDeriv`     : for a finite law the a-th derivative of φ(t) = Σ p_j e^{i t x_j} is Σ p_j (i x_j)^a e^{i t x_j}
 * `trig_moment_formula`   : the coded formula (table, divisor, real part) is Σ p_j x_j^a sin^b x_j cos^c x_j
+* `trig_moment_formula_coded` : the same with the frequency-0 terms taken from the raw moment, as coded since /repo c7c1f2a
 * `exp_moment_formula`    : Σ p_j x_j^a e^{c x_j} = M^(a)(c)
 * `route_coded_eq_intended`, `mix_rejected`, `plan_coded_sound` : the guard of `get_func_moment` (full statement since /repo e78913c)
 * `mgfExists{Exponential,Gamma,Laplace}_correct` : the model of `mgf_exists_at` decides integrability of e^{tx} f(x)
@@ -297,6 +298,47 @@ example : (1/2 : ℝ) * 0 ^ 1 * Real.sin 0 ^ 2 * Real.cos 0 ^ 3 + (1/2 : ℝ) * 
   have h := trig_moment_formula (Finset.univ : Finset (Fin 2)) ![1/2, 1/2] ![0, 1] 1 2 3
   simpa [Fin.sum_univ_two] using h
 
+/-! ### the frequency-0 term as coded (raw moment instead of the derivative of the transform) -/
+
+/-- the transform value the code uses for one term (`Polar.Trig.termSource`) -/
+noncomputable def codedTerm (a : ℕ) (ω : ℤ) : ℂ :=
+  match termSource a ω with
+  | .cf => cfD s p x 0 (ω : ℝ)
+  | .moment => I ^ a * ((∑ j ∈ s, p j * x j ^ a : ℝ) : ℂ)
+  | .cfDeriv => iteratedDeriv a (cfD s p x 0) (ω : ℝ)
+
+/-- `φ^(a)(0) = i^a E[X^a]` for a finite law -/
+theorem cfD_at_zero (a : ℕ) : iteratedDeriv a (cfD s p x 0) (0 : ℝ) = I ^ a * ((∑ j ∈ s, p j * x j ^ a : ℝ) : ℂ) := by
+  rw [cfD_iteratedDeriv]
+  unfold cfD
+  push_cast
+  rw [Finset.mul_sum]
+  apply Finset.sum_congr rfl
+  intro j _
+  simp only [mul_zero, zero_mul, Complex.exp_zero, mul_one, mul_pow]
+  ring
+
+/-- every source the code chooses denotes the a-th derivative of the characteristic function -/
+theorem codedTerm_eq (a : ℕ) (ω : ℤ) : codedTerm s p x a ω = iteratedDeriv a (cfD s p x 0) (ω : ℝ) := by
+  unfold codedTerm termSource
+  by_cases ha : a = 0
+  · subst ha; simp
+  · by_cases hw : ω = 0
+    · subst hw; simp only [ha, if_false, if_true]; rw [Int.cast_zero, cfD_at_zero]
+    · simp only [ha, hw, if_false]
+
+/-- **`get_trig_moment` as coded** (frequency-0 terms from the raw moment) is the true moment -/
+theorem trig_moment_formula_coded (a b c : ℕ) :
+    ∑ j ∈ s, p j * x j ^ a * Real.sin (x j) ^ b * Real.cos (x j) ^ c =
+      (evalTable (trigTable b c) (codedTerm s p x a) /
+        (I ^ (trigNorm a b c).1 * 2 ^ (trigNorm a b c).2)).re := by
+  rw [trig_moment_formula s p x a b c]
+  congr 3
+  funext ω
+  rw [codedTerm_eq]
+
+example : trigSources 1 1 1 = [.cfDeriv, .moment, .moment, .cfDeriv] := by decide
+
 /-! ### exponential moments through the moment generating function -/
 
 /-- `Σ_j p_j x_j^a e^{t x_j}`: for `a = 0` the mgf of the finite law, in general its a-th derivative -/
@@ -344,7 +386,7 @@ noncomputable def trueMoment (powers : List (String × ℕ)) : ℝ :=
 /-- the number a plan of the model denotes for a finite law (`none` = the call raises) -/
 noncomputable def planValue : Plan → Option ℝ
   | .trig a _ _ T nrm =>
-      some (evalTable T (fun ω => iteratedDeriv a (cfD s p x 0) (ω : ℝ)) / (I ^ nrm.1 * 2 ^ nrm.2)).re
+      some (evalTable T (codedTerm s p x a) / (I ^ nrm.1 * 2 ^ nrm.2)).re
   | .exp a c => some (iteratedDeriv a (fun t => ∑ j ∈ s, p j * Real.exp (t * x j)) (c : ℝ))
   | .error _ => none
 
@@ -417,7 +459,7 @@ theorem plan_coded_sound (powers : List (String × ℕ))
      subst hv
      unfold trueMoment
      rw [powerOf_eq_zero powers "Exp" hE]
-     rw [← trig_moment_formula]
+     rw [← trig_moment_formula_coded]
      apply Finset.sum_congr rfl; intro j _; simp)
 
 /-- non-vacuity of `plan_coded_sound`: a value is returned on the trig and on the exp route -/
@@ -433,10 +475,9 @@ theorem trig_route_ignores_exp :
       = some (Real.sin 1) ∧
     trueMoment ({()} : Finset Unit) (fun _ => 1) (fun _ => 1) [("Sin", 1), ("Exp", 1)] = Real.sin 1 * Real.exp 1 ∧
     Real.sin 1 ≠ Real.sin 1 * Real.exp 1 := by
-  have hval : (evalTable (trigTable 1 0) (fun ω => iteratedDeriv 0
-        (cfD ({()} : Finset Unit) (fun _ => 1) (fun _ => 1) 0) (ω : ℝ)) /
+  have hval : (evalTable (trigTable 1 0) (codedTerm ({()} : Finset Unit) (fun _ => 1) (fun _ => 1) 0) /
         (I ^ (trigNorm 0 1 0).1 * 2 ^ (trigNorm 0 1 0).2)).re = Real.sin 1 := by
-    rw [← trig_moment_formula]; simp
+    rw [← trig_moment_formula_coded]; simp
   have htrue : trueMoment ({()} : Finset Unit) (fun _ => 1) (fun _ => 1) [("Sin", 1), ("Exp", 1)]
       = Real.sin 1 * Real.exp 1 := by
     have h1 : powerOf [("Sin", 1), ("Exp", 1)] "Id" = 0 := by decide
